@@ -80,7 +80,11 @@ func c17Alphabet() []C {
 		// a second matcher for a property that already has one in the same scope (rules accumulate in every scope)
 		C{Op: "AllowStyles", Names: []string{"color"}, Handler: "is-green", Scope: "global"},
 		C{Op: "AllowStyles", Names: []string{"color"}, Handler: "is-green", Scope: "on", On: []string{"p"}},
-		C{Op: "AllowStyles", Names: []string{"width"}, Enum: []string{"auto"}, Scope: "matching", OnRe: reMy})
+		C{Op: "AllowStyles", Names: []string{"width"}, Enum: []string{"auto"}, Scope: "matching", OnRe: reMy},
+		// several properties in one call, no matcher (default handlers), and the same rules as separate calls
+		C{Op: "AllowStyles", Names: []string{"color", "text-align"}, Scope: "matching", OnRe: reMyX},
+		C{Op: "AllowStyles", Names: []string{"color"}, Scope: "matching", OnRe: reMyX}, C{Op: "AllowStyles", Names: []string{"text-align"}, Scope: "matching", OnRe: reMyX},
+		C{Op: "AllowStyles", Names: []string{"text-align", "color"}, Scope: "on", On: []string{"span"}})
 	return al
 }
 
@@ -94,7 +98,7 @@ var c17Probes = []string{
 	`<my-x style="width: 10px; color: red" id="1">w</my-x>`, `<b style="color: red">s</b>`, `<b data-k="v" id="a1">d</b>`, `<!-- c --><b>after comment</b>`,
 	`<x>unknown</x><y/>tail`, `a<x>b</x>c<z>d`, `<script>s</script><style>t</style>v`, `<title>ti</title><object>o</object>w`, `<b id="Abc" title="T!">mixed</b>`,
 	`<img src="x.png" title="t">`, `<a href="//e.x/p" target="_blank">b</a>`, `<a href="#frag">f</a>`, `<span id="">e</span>`, `<i title="<b>">q</i>`,
-	`<p style="color: green">g</p>`, `<my-x style="width: auto">a</my-x>`, `<my-y name="5" title="t">n</my-y>`, `<iframe sandbox="">s</iframe>`, `<img crossorigin="x" src="http://e.x/a?b">`, `<p>a</p>  <p>b</p>`, `<B ID=q>upper</B>`, `<a href="tel:123">t</a>`, `&lt;b&gt; &amp; text`,
+	`<my-x style="text-align: center; color: red">c</my-x>`, `<span style="text-align: center; color: #fff">c</span>`, `<p style="color: green">g</p>`, `<my-x style="width: auto">a</my-x>`, `<my-y name="5" title="t">n</my-y>`, `<iframe sandbox="">s</iframe>`, `<img crossorigin="x" src="http://e.x/a?b">`, `<p>a</p>  <p>b</p>`, `<B ID=q>upper</B>`, `<a href="tel:123">t</a>`, `&lt;b&gt; &amp; text`,
 }
 
 func probeVector(p *bluemonday.Policy, probes []string) (vec []string, pm string) {
